@@ -2,7 +2,8 @@
    real daemon): the executable statements chk_C07 / chk_C08 / chk_C09 evaluated on the model's
    own observation.  Empty list = accepted; VKnown k = the deviation of class k. *)
 From Coq Require Import List NArith Bool.
-From Mdns Require Import Bytes Rec ParamsRegistry Names WireOut Registry RegistryDaemon RegistrySpec RegistryWitnesses.
+From Mdns Require Import Bytes Rec ParamsRegistry Names WireOut Registry RegistryDaemon RegistrySpec RegistryWitnesses
+     RegistryHistoryProofs.
 Import ListNotations.
 Open Scope N_scope.
 
@@ -114,3 +115,54 @@ Lemma w_resend_probes_accepted :
     (1000895, false, true, false);
     (1001993, true, false, false); (1002243, true, false, false); (1002493, true, false, false) ].
 Proof. split; vm_compute; reflexivity. Qed.
+
+(* ---- round 4: the history invariants on witness runs (non-vacuity) and one refutation ---------------- *)
+
+Definition state_after (ifs : list intf) (its : list iter) (k : nat) : dstate := run_state (d_init ifs) (firstn k its).
+Definition queue_times (st : dstate) : list N := map fst (d_retrans st).
+Definition has_goodbye_repeat (st : dstate) : bool :=
+  existsb (fun e => match snd e with UnregisterResend m _ _ => is_goodbye m | _ => false end) (d_retrans st).
+Definition next_sends (st : dstate) : list (list N) :=
+  map (fun kr => map (fun np => pb_next (snd np)) (rg_probing (snd kr))) (d_regs st).
+
+(* w_unregister: after the first announcement (+895) its repeat is queued for +1895; after the
+   unregister at +2500 the repeat of the goodbye - a goodbye message - is queued for +2620; after
+   that iteration the queue is empty *)
+Lemma w_unregister_queue :
+  queue_times (state_after w_unregister_ifs w_unregister_its 5) = [1001895] /\
+  queue_times (state_after w_unregister_ifs w_unregister_its 7) = [1002620] /\
+  has_goodbye_repeat (state_after w_unregister_ifs w_unregister_its 7) = true /\
+  queue_times (state_after w_unregister_ifs w_unregister_its 8) = [] /\
+  d_svcs (state_after w_unregister_ifs w_unregister_its 8) = [].
+Proof. repeat split; vm_compute; reflexivity. Qed.
+
+(* w_unregister: after the iteration at +145 the two probes (instance and host name) are due at +395 *)
+Lemma w_unregister_next_sends :
+  next_sends (state_after w_unregister_ifs w_unregister_its 2) = [[1000395; 1000395]] /\
+  next_sends (state_after w_unregister_ifs w_unregister_its 5) = [[]].
+Proof. split; vm_compute; reflexivity. Qed.
+
+(* w_added_twice: the announcement add_interface makes at +2600 is queued again for +3600 *)
+Lemma w_added_twice_queue :
+  queue_times (state_after w_added_twice_ifs w_added_twice_its 1) = [1001000] /\
+  queue_times (state_after w_added_twice_ifs w_added_twice_its 4) = [1003600] /\
+  queue_times (state_after w_added_twice_ifs w_added_twice_its 5) = [].
+Proof. repeat split; vm_compute; reflexivity. Qed.
+
+(* REFUTATION: "after the unregister (and the repeat) nothing of the service remains in the
+   registry" is false.  unregister removes the service from the service map only; the interface's
+   registry keeps its probes and active records: here the service is unregistered (OK) after its
+   second probe, the third probe query still goes out at +645 ms, at +895 ms both names become
+   active although no service is registered, and the re-registration at +3000 ms is announced at
+   once, without probing. *)
+Lemma w_unreg_probing_refutes :
+  d_svcs (state_after w_unreg_probing_ifs w_unreg_probing_its 4) = [] /\
+  map (fun kr => (length (rg_probing (snd kr)), length (rg_active (snd kr)))) (d_regs (state_after w_unreg_probing_ifs w_unreg_probing_its 4)) = [(2, 0)]%nat /\
+  d_svcs (state_after w_unreg_probing_ifs w_unreg_probing_its 6) = [] /\
+  queue_times (state_after w_unreg_probing_ifs w_unreg_probing_its 6) = [] /\
+  map (fun kr => (length (rg_probing (snd kr)), length (rg_active (snd kr)))) (d_regs (state_after w_unreg_probing_ifs w_unreg_probing_its 6)) = [(0, 2)]%nat /\
+  busy (timeline w_unreg_probing_ifs w_unreg_probing_its) =
+  [ (1000145, true, false, false); (1000395, true, false, false); (1000645, true, false, false);
+    (1003000, false, true, false); (1004000, false, true, false) ] /\
+  self9 w_unreg_probing_ifs w_unreg_probing_its = [] /\ self7 w_unreg_probing_ifs w_unreg_probing_its = [].
+Proof. repeat split; vm_compute; reflexivity. Qed.
